@@ -35,7 +35,8 @@ def gen_tpipe(rng, depth, sid):
     if depth == 0:
         n = rng.randint(0, 6)
         return {'op': 'src', 'xs': [rng.randint(-3, 12) for _ in range(n)]}, 'int', True
-    op = rng.choice(['map', 'map', 'mapRaise', 'filter', 'filter', 'batch', 'unbatch', 'concat', 'slice', 'zip', 'local'])
+    op = rng.choice(['map', 'map', 'mapRaise', 'filter', 'filter', 'batch', 'unbatch', 'concat', 'slice', 'zip', 'local']
+                    + (['catch', 'catch', 'reshuffle', 'cache', 'tile', 'intersperse'] if EXTENDED else []))
     p, kind, idxable = gen_tpipe(rng, depth - 1, sid)
     if op in ('map', 'mapRaise'):
         sid[0] += 1
@@ -81,21 +82,45 @@ def gen_tpipe(rng, depth, sid):
                     renumber(t[k])
         renumber(q)
         return {'op': 'zip', 'p': p, 'q': q}, 'other', idxable
-    if op == 'slice' and idxable:
+    if op == 'slice' and idxable and 'cache' not in ops_of(p):
         n = count_len(p)
         if n is not None:
             sel = [rng.randrange(n) for _ in range(rng.randint(0, n + 1))] if n else []
             return {'op': 'slice', 'sel': sel, 'p': p}, kind, True
+    if op == 'catch' and idxable and count_len(p) is not None:
+        return {'op': 'catch', 'E': rng.choice([['UserA'], ['ValueError'], ['UserA', 'ValueError'], ['UserBase']]), 'p': p}, kind, False
+    if op == 'reshuffle' and idxable and count_len(p) is not None:
+        return {'op': 'reshuffle', 'perm': [], 'p': p}, kind, False
+    if op == 'cache' and idxable and count_len(p) is not None:
+        return {'op': 'cache', 'p': p}, kind, True
+    # (a cache below a stage that may visit a position twice would answer the second visit from memory:
+    #  memoisation is C10's subject, the traced model describes first accesses)
+    if op == 'tile' and idxable and count_len(p) and 'cache' not in ops_of(p):
+        return {'op': 'tile', 'r': rng.randint(2, 3), 'p': p}, kind, True
+    if op == 'intersperse' and idxable and count_len(p):
+        q, k2, i2 = gen_tpipe(rng, max(0, depth - 2), sid)
+        if i2 and count_len(q):
+            return {'op': 'intersperse', 'p': p, 'q': q}, kind if kind == k2 else 'other', True
+        return p, kind, idxable
     if op == 'local':
         return {'op': 'localShuffle', 'bs': rng.randint(1, 3), 'choices': [], 'final': [], 'p': p}, kind, False
     return p, kind, idxable
 
 
+EXTENDED = True       # catch / reshuffle / cache / tile / intersperse in the traced pipelines
+
+
 def count_len(p):
     if p['op'] == 'src':
         return len(p['xs'])
-    if p['op'] == 'map':
+    if p['op'] in ('map', 'reshuffle', 'cache'):
         return count_len(p['p'])
+    if p['op'] == 'tile':
+        n = count_len(p['p'])
+        return None if n is None else n * p['r']
+    if p['op'] == 'intersperse':
+        a, b = count_len(p['p']), count_len(p['q'])
+        return None if a is None or b is None else a + b
     if p['op'] == 'slice':
         return len(p['sel'])
     if p['op'] == 'concat':
@@ -129,6 +154,19 @@ def build_real(p, log, rngs):
         return build_real(p['p'], log, rngs).zip(build_real(p['q'], log, rngs))
     if op == 'slice':
         return build_real(p['p'], log, rngs)[list(p['sel'])]
+    if op == 'catch':
+        from impl import exc_tuple
+        return build_real(p['p'], log, rngs).catch(exc_tuple(p['E']))
+    if op == 'reshuffle':
+        r = RecRng(len(rngs) + 29)
+        rngs.append((p, r))
+        return build_real(p['p'], log, rngs).shuffle(reshuffle=True, rng=r)
+    if op == 'cache':
+        return build_real(p['p'], log, rngs).cache()
+    if op == 'tile':
+        return build_real(p['p'], log, rngs).tile(p['r'])
+    if op == 'intersperse':
+        return build_real(p['p'], log, rngs).intersperse(build_real(p['q'], log, rngs))
     if op == 'localShuffle':
         r = RecRng(len(rngs) + 17)
         rngs.append((p, r))
@@ -165,6 +203,10 @@ def run_case(p):
         tail = logj(log[mark:])
         # what the generators drew goes into the request so that the model follows the same choices
         for q, r in rngs:
+            if q['op'] == 'reshuffle':
+                # what the generator drew: the order of this (first) epoch
+                q['perm'] = r.shuffles[0] if r.shuffles else list(range(count_len(q['p']) or 0))
+                continue
             q['choices'] = r.choices
             q['final'] = r.shuffles[-1] if r.shuffles else []
         # indexing: the calls made for exactly one result (fresh pipeline, same functions)
@@ -182,6 +224,10 @@ def run_case(p):
     return {'construction_calls': construction_calls, 'chunks': chunks, 'tail': tail, 'err': err, 'gets': gets}
 
 
+# stages that visit their input in an order of their own / several times / not to the end
+INDEX_DRIVEN = {'slice', 'reshuffle', 'tile', 'intersperse'}
+
+
 def oracle(p, r):
     """model-free clauses: nothing at construction; per stage every argument sequence is consumed once and in
     order (no call repeated for the same position)"""
@@ -194,14 +240,14 @@ def oracle(p, r):
     for s, a in full:
         per_stage.setdefault(s, []).append(a)
     # index-driven stages (slices) deliberately visit their input in selection order and may repeat positions
-    expect = stage_inputs(p) if 'slice' not in ops_of(p) else {}
+    expect = stage_inputs(p) if not (INDEX_DRIVEN & set(ops_of(p))) else {}
     for s, args in per_stage.items():
         want = expect.get(s)
         if want is not None and args != want[:len(args)]:
             fails.append(('not_once_in_source_order', {'stage': s, 'called_with': args, 'stage_input_sequence': want}))
     # ds[i] applies the functions only to the examples that make up that one result, once each: in an
     # indexable pipeline without index-driven stages the i-th step of an iteration does exactly that work
-    if 'slice' not in ops_of(p):
+    if not (INDEX_DRIVEN & set(ops_of(p))):
         for i, glog, res in r['gets']:
             if i < len(r['chunks']) and 'ok' in res:
                 need = [json.dumps(c, sort_keys=True) for c in r['chunks'][i][0]]
@@ -232,16 +278,77 @@ def stage_inputs(p, acc=None):
     return acc
 
 
+def is_idxable(p):
+    if p['op'] in ('filter', 'unbatch', 'localShuffle', 'catch', 'reshuffle'):
+        return False
+    return all(is_idxable(p[k]) for k in ('p', 'q') if k in p)
+
+
+def small_tpipes(depth):
+    """bounded-exhaustive: three small instrumented sources wrapped `depth` times with a fixed stage menu
+    (every traced combinator, both batch modes, slices with repeats); independent of the seed"""
+    def base(xs):
+        return {'op': 'map', 'sid': 0, 'f': {'fn': 'add', 'c': 1}, 'p': {'op': 'src', 'xs': xs}}
+
+    def menu(p):
+        n = count_len(p)
+        ix = is_idxable(p)
+        side = base([7, 8])
+        m = [
+            {'op': 'map', 'sid': 0, 'f': {'fn': 'identity'}, 'p': p},
+            {'op': 'map', 'sid': 0, 'f': {'fn': 'raiseIfMod', 'm': 2, 'r': 0, 'cls': 'UserA'}, 'p': p},
+            {'op': 'filter', 'sid': 0, 'f': {'pred': 'keepMod', 'm': 2, 'r': 1}, 'p': p},
+            {'op': 'batch', 'n': 2, 'dropLast': False, 'p': p},
+            {'op': 'batch', 'n': 2, 'dropLast': True, 'p': p},
+            {'op': 'batch', 'n': 3, 'dropLast': True, 'p': p},
+            {'op': 'unbatch', 'p': p},
+            {'op': 'concat', 'p': p, 'q': side},
+            {'op': 'localShuffle', 'bs': 2, 'choices': [], 'final': [], 'p': p},
+        ]
+        if n is not None:
+            m.append({'op': 'zip', 'p': p, 'q': json.loads(json.dumps(p))})
+        if ix and n is not None:
+            m += [{'op': 'catch', 'E': ['UserA'], 'p': p}, {'op': 'reshuffle', 'perm': [], 'p': p}, {'op': 'cache', 'p': p}]
+            if n > 0:
+                m.append({'op': 'intersperse', 'p': p, 'q': side})
+                if 'cache' not in ops_of(p):
+                    m += [{'op': 'tile', 'r': 2, 'p': p}, {'op': 'slice', 'sel': [n - 1, 0, 0], 'p': p}]
+        return m
+
+    def renumber(t, c):
+        if 'sid' in t:
+            c[0] += 1
+            t['sid'] = c[0]
+        for k in ('p', 'q'):
+            if k in t:
+                renumber(t[k], c)
+
+    level = [base([]), base([5]), base([3, 1, 2, 4, 0])]
+    out = list(level)
+    for _ in range(depth):
+        level = [q for p in level for q in menu(p)]
+        out += level
+    res = []
+    for p in out:
+        p = json.loads(json.dumps(p))
+        renumber(p, [0])
+        res.append(p)
+    return res
+
+
 def run(rep):
     rng = random.Random(rep.seed * 47 + 8)
     n = 400 if rep.tier == 'quick' else 8000
-    cases = []
+    cases = small_tpipes(2)
+    n_small = len(cases)
     for _ in range(n):
         p, _, _ = gen_tpipe(rng, rng.choice([1, 2, 2, 3, 3, 4]), [0])
         cases.append(p)
     # corpus: the doctest of PrefetchDataset-free laziness: map then filter then batch
     cases.insert(0, {'op': 'batch', 'n': 2, 'dropLast': False, 'p': {'op': 'filter', 'sid': 2, 'f': {'pred': 'keepMod', 'm': 2, 'r': 0},
                      'p': {'op': 'map', 'sid': 1, 'f': {'fn': 'add', 'c': 1}, 'p': {'op': 'src', 'xs': [1, 2, 3, 4, 5]}}}})
+    if not EXTENDED:
+        cases = [p for p in cases if not ({'catch', 'reshuffle', 'cache', 'tile', 'intersperse'} & set(ops_of(p)))]
     results = [run_case(p) for p in cases]
     reqs = [{'fam': 'trace', 'p': p, 'gets': [g[0] for g in r['gets']]} for p, r in zip(cases, results)]
     replies = model.ask(reqs)
@@ -309,7 +416,7 @@ def run(rep):
     rep.coverage.update({
         'evaluations': len(cases), 'programs': len(cases), 'disagreements_checked': steps, 'disagreements_found': len(disagree),
         'distinct_nontrivial': len({json.dumps(p, sort_keys=True) for p in cases if len(ops_of(p)) >= 3}),
-        'rule': 'random lazy pipelines (map incl. raising, lazy filter, batch, unbatch, concatenate, zip, index slices, buffer-local shuffle with recorded draws) of depth 1-4; every user function logs (stage, argument); '
+        'rule': 'bounded-exhaustive: three small instrumented sources wrapped twice with a fixed menu of every traced combinator (~630 pipelines, independent of the seed) + random lazy pipelines (map incl. raising, lazy filter, batch, unbatch, concatenate, zip, index slices, buffer-local shuffle and per-epoch reshuffle with recorded draws, catch, lazy cache, tile, intersperse) of depth 1-4; every user function logs (stage, argument); '
                 'the log is compared with the model after construction, after EVERY next() and for every ds[i]; distinct non-trivial = distinct pipeline with >= 3 stages',
         'samples': [{'pipeline': cases[0], 'implementation': results[0], 'model': replies[0]}],
         'distribution': {'stage_kinds': dist}, 'next_calls_compared': steps, 'oracle_failures': len(fails), 'exhaustive': False})
